@@ -19,7 +19,7 @@ import (
 
 func c15Cfg() *mrogen.ProgCfg {
 	return &mrogen.ProgCfg{MaxStages: 4, MaxPipelines: 4, MaxCalls: 4, MapCalls: true, Disabled: true, SplitStage: true,
-		Preflight: true, NoFiles: false, Assignable: refsem.Assignable,
+		Preflight: true, NoFiles: false, Wildcards: true, Assignable: refsem.Assignable,
 		Values: mrogen.ValueCfg{NullPct: 5, PlainStrings: true, SafeKeys: true, PlainNumbers: true}}
 }
 
@@ -139,8 +139,48 @@ func semanticEdit(t *rapid.T, prog *mrogen.Program) (string, int) {
 		}
 	}
 	kind := rapid.SampledFrom([]string{"literal", "literal", "alias", "rename-stage-input", "retype-stage-input", "add-stage-input",
-		"toggle-split", "drop-disabled", "add-disabled", "repoint-disabled", "swap-bindings", "swap-returns", "top-literal", "rename-stage-output-unused"}).Draw(t, "edit")
+		"toggle-split", "drop-disabled", "add-disabled", "repoint-disabled", "swap-bindings", "swap-returns", "top-literal", "rename-stage-output-unused", "repoint-wildcard", "repoint-wildcard"}).Draw(t, "edit")
 	switch kind {
+	case "repoint-wildcard":
+		// "* = self.w1" becomes "* = self.w2" (another input of the same
+		// struct type): every argument of the call now comes from elsewhere
+		var cand []callSite
+		for _, s := range sites {
+			if s.c.WildcardFrom != nil && s.c.WildcardFrom.Call == "" && len(s.c.WildcardFrom.Path) == 0 {
+				cand = append(cand, s)
+			}
+		}
+		if len(cand) == 0 {
+			return "", 0
+		}
+		s := cand[rapid.IntRange(0, len(cand)-1).Draw(t, "site")]
+		from := s.c.WildcardFrom.Out
+		var fromT mrogen.Ty
+		for _, in := range s.pl.Ins {
+			if in.Name == from {
+				fromT = in.T
+			}
+		}
+		var others []string
+		for _, in := range s.pl.Ins {
+			if in.Name != from && in.T == fromT {
+				others = append(others, in.Name)
+			}
+		}
+		if len(others) == 0 {
+			return "", 0
+		}
+		to := others[rapid.IntRange(0, len(others)-1).Draw(t, "wildcardTo")]
+		for i := range s.c.Bindings {
+			if r, ok := s.c.Bindings[i].E.(mrogen.Ref); ok && r.Call == "" && r.Out == from {
+				r.Out = to
+				s.c.Bindings[i].E = r
+			}
+		}
+		w := *s.c.WildcardFrom
+		w.Out = to
+		s.c.WildcardFrom = &w
+		return kind, s.d
 	case "top-literal":
 		if len(prog.Top.Bindings) == 0 {
 			return "", 0
